@@ -1277,3 +1277,311 @@ Proof.
   apply Bool.eqb_prop. apply T. unfold all_bytes. apply in_map_iff.
   exists (N.to_nat b). split; [apply N2Nat.id|]. apply in_seq. lia.
 Qed.
+(* ================================================================ 11. the unbounded stream of NextToken results *)
+(* [call_seq m s pos k] = result of the (k+1)-th NextToken call of a lexer standing at pos (no fuel: k calls are
+   made whatever they return); [nth_call m s k] = the token returned by call number k (from 0) of a fresh lexer. *)
+Fixpoint call_seq (m : bool) (s : list N) (pos : nat) (k : nat) : ltok * nat :=
+  match k with
+  | O => next_token m s pos
+  | S k' => call_seq m s (snd (next_token m s pos)) k'
+  end.
+
+Definition nth_call (m : bool) (s : list N) (k : nat) : ltok := fst (call_seq m s 0 k).
+
+Definition end_marker_at (m : bool) (p : nat) : ltok := mkLtok (end_type m) [] p (S p) false false.
+
+Lemma call_seq_past_end m s : forall k p,
+  (length s <= p)%nat -> call_seq m s p k = (end_marker_at m (p + k), S (p + k)).
+Proof.
+  induction k as [|k IH]; intros p Hp; cbn [call_seq].
+  - rewrite next_token_at_end by exact Hp. now rewrite Nat.add_0_r.
+  - rewrite next_token_at_end by exact Hp. cbn [snd]. rewrite IH by lia.
+    now replace (S p + k)%nat with (p + S k)%nat by lia.
+Qed.
+
+Lemma lex_from_stream : forall fuel m s pos,
+  (length s - pos < fuel)%nat ->
+  forall k,
+    ((k < length (lex_from fuel m s pos))%nat ->
+       nth_error (lex_from fuel m s pos) k = Some (fst (call_seq m s pos k))) /\
+    ((length (lex_from fuel m s pos) - 1 <= k)%nat ->
+       lt_type (fst (call_seq m s pos k)) = end_type m /\ lt_lit (fst (call_seq m s pos k)) = []).
+Proof.
+  induction fuel as [|f IH]; intros m s pos Hf k; [lia|].
+  cbn [lex_from]. pose proof (next_token_spec m s pos) as N.
+  destruct (next_token m s pos) as [t pos'] eqn:Ent. destruct N as [-> [Hle [Hws [Hnws Hat]]]].
+  pose proof (tok_at_facts m s t Hat) as [Hty [Hlt Hk]].
+  assert (Hneg : Z.ltb (lt_type t) 0 = false) by (apply Z.ltb_ge; exact Hty). rewrite Hneg, orb_false_r.
+  destruct (is_end t) eqn:Eend.
+  - destruct Hk as [K1 [K2 [K3 K4]]]. cbn [length]. destruct k as [|k]; cbn [call_seq nth_error].
+    + rewrite Ent. cbn [fst]. split; auto.
+    + rewrite Ent. cbn [snd]. rewrite call_seq_past_end by lia. cbn [fst end_marker_at lt_type lt_lit].
+      split; [lia|auto].
+  - cbn [length]. destruct k as [|k]; cbn [call_seq nth_error].
+    + rewrite Ent. cbn [fst]. split; [auto|].
+      intros Hk0. exfalso.
+      destruct (lex_from_spec f m s (lt_end t)) as [body [e [E _]]]; [lia|].
+      rewrite E, app_length in Hk0. cbn [length] in Hk0. lia.
+    + rewrite Ent. cbn [snd]. destruct (IH m s (lt_end t)) with (k := k) as [A B]; [lia|].
+      split; [intros; apply A; lia|intros; apply B; lia].
+Qed.
+
+(* The results of the successive NextToken calls of a fresh lexer are exactly lex_all followed by the end marker
+   for ever: call k returns the k-th element of lex_all while there is one, and from the last element of lex_all on
+   every call returns the end marker of the mode (empty literal), at positions that keep growing by one. *)
+Lemma token_stream m s :
+  (forall k, (k < length (lex_all m s))%nat -> nth_error (lex_all m s) k = Some (nth_call m s k)) /\
+  (forall k, (length (lex_all m s) - 1 <= k)%nat ->
+             lt_type (nth_call m s k) = end_type m /\ lt_lit (nth_call m s k) = []) /\
+  (forall k, (length s < k)%nat -> lt_type (nth_call m s k) = end_type m).
+Proof.
+  unfold lex_all, nth_call.
+  assert (F : (length s - 0 < length s + 2)%nat) by lia.
+  split; [|split].
+  - intros k Hk. now apply (lex_from_stream _ m s 0 F k).
+  - intros k Hk. now apply (lex_from_stream _ m s 0 F k).
+  - intros k Hk. apply (lex_from_stream _ m s 0 F k).
+    pose proof (lex_all_end_marker m s) as [L _]. unfold lex_all in L. lia.
+Qed.
+
+(* the fuel of lex_all is immaterial: any larger fuel gives the same list *)
+Lemma lex_from_fuel : forall f1 f2 m s pos,
+  (length s - pos < f1)%nat -> (length s - pos < f2)%nat -> lex_from f1 m s pos = lex_from f2 m s pos.
+Proof.
+  induction f1 as [|f1 IH]; intros f2 m s pos H1 H2; [lia|]. destruct f2 as [|f2]; [lia|].
+  cbn [lex_from]. pose proof (next_token_spec m s pos) as N.
+  destruct (next_token m s pos) as [t pos']. destruct N as [-> [Hle [Hws [Hnws Hat]]]].
+  pose proof (tok_at_facts m s t Hat) as [Hty [Hlt Hk]].
+  destruct (is_end t || Z.ltb (lt_type t) 0) eqn:E; [reflexivity|].
+  apply orb_false_elim in E. destruct E as [E _]. rewrite E in Hk.
+  f_equal. apply IH; lia.
+Qed.
+
+(* ================================================================ 12. HadWhitespace / HadNewline *)
+Lemma existsb_firstn_nl n : forall r,
+  existsb (N.eqb 10) (firstn n r) = true <-> exists i, (i < n)%nat /\ nth_error r i = Some 10.
+Proof.
+  induction n as [|n IH]; intros r; cbn [firstn existsb].
+  - split; [discriminate|intros [i [Hi _]]; lia].
+  - destruct r as [|c r]; cbn [existsb].
+    + split; [discriminate|intros [i [_ Hi]]; now destruct i].
+    + rewrite orb_true_iff, IH. split.
+      * intros [H|[i [Hi Hn]]].
+        -- apply N.eqb_eq in H. subst c. exists 0%nat. split; [lia|reflexivity].
+        -- exists (S i). split; [lia|exact Hn].
+      * intros [[|i] [Hi Hn]]; cbn [nth_error] in Hn.
+        -- left. inversion Hn. reflexivity.
+        -- right. exists i. split; [lia|exact Hn].
+Qed.
+
+(* flags of the tokens scanned one after the other from position p: HadWhitespace tells whether the token is
+   separated from the previous one, HadNewline whether a newline byte lies in between *)
+Fixpoint flags_chain (s : list N) (p : nat) (toks : list ltok) : Prop :=
+  match toks with
+  | [] => True
+  | t :: rest =>
+    (lt_ws t = true <-> (p < lt_start t)%nat) /\
+    (lt_nl t = true <-> exists j, (p <= j < lt_start t)%nat /\ nth_error s j = Some 10) /\
+    flags_chain s (lt_end t) rest
+  end.
+
+Lemma next_token_flags m s pos :
+  let t := fst (next_token m s pos) in
+  (lt_ws t = true <-> (pos < lt_start t)%nat) /\
+  (lt_nl t = true <-> exists j, (pos <= j < lt_start t)%nat /\ nth_error s j = Some 10).
+Proof.
+  unfold next_token. set (r0 := skipn pos s). set (nws := span_len isWhiteSpace r0).
+  destruct (scan_token m (skipn nws r0)) as [[ty lit] k]. cbn [fst lt_ws lt_nl lt_start]. split.
+  - rewrite Nat.ltb_lt. lia.
+  - rewrite existsb_firstn_nl. split.
+    + intros [i [Hi Hn]]. exists (pos + i)%nat. split; [lia|]. unfold r0 in Hn. now rewrite nth_error_skipn' in Hn.
+    + intros [j [Hj Hn]]. exists (j - pos)%nat. split; [lia|]. unfold r0. rewrite nth_error_skipn'.
+      now replace (pos + (j - pos))%nat with j by lia.
+Qed.
+
+Lemma lex_from_flags : forall fuel m s pos, flags_chain s pos (lex_from fuel m s pos).
+Proof.
+  induction fuel as [|f IH]; intros m s pos; cbn [lex_from flags_chain]; [exact I|].
+  pose proof (next_token_flags m s pos) as Fl. pose proof (next_token_spec m s pos) as N.
+  destruct (next_token m s pos) as [t pos']. cbn [fst] in Fl. destruct N as [-> _]. destruct Fl as [F1 F2].
+  destruct (is_end t || Z.ltb (lt_type t) 0); cbn [flags_chain]; repeat split; auto; try apply F1; try apply F2.
+Qed.
+
+Lemma lex_all_flags m s : flags_chain s 0 (lex_all m s).
+Proof. apply lex_from_flags. Qed.
+(* ================================================================ 13. the objects of the tokens a process lexes *)
+(* Which *token.Token the lexer hands out.  Tokens of a value type (ILLEGAL, IDENT, INT, FLOAT, STRING, comments) come
+   from token.Intern / LookupIdent: object number given by the interning table.  All other tokens are the objects
+   made once by token.Init (cTokens / c2Tokens / keywords maps) or the package variables EOFT / EOLT: one object
+   per type, [OConst ty]. *)
+Inductive tobj : Type := OConst (ty : Z) | OValue (id : nat).
+
+Definition is_value_type (ty : Z) : bool :=
+  existsb (Z.eqb ty) [token_ILLEGAL; token_IDENT; token_INT; token_FLOAT; token_STRING; token_LINECOMMENT;
+                      token_BLOCKCOMMENT].
+
+Definition obj_of (st : istate) (t : ltok) : tobj * istate :=
+  if is_value_type (lt_type t) then
+    let '(id, st') := intern st (lt_type t, lt_lit t) in (OValue id, st')
+  else (OConst (lt_type t), st).
+
+Fixpoint objs_of (st : istate) (toks : list ltok) : list (ltok * tobj) * istate :=
+  match toks with
+  | [] => ([], st)
+  | t :: rest =>
+    let '(o, st1) := obj_of st t in
+    let '(os, st2) := objs_of st1 rest in ((t, o) :: os, st2)
+  end.
+
+(* a process lexes the inputs of h one after the other (each with its own lexer, in its own mode); all the tokens it
+   ever receives, with their objects, in order *)
+Fixpoint lex_history (st : istate) (h : list (bool * list N)) : list (ltok * tobj) * istate :=
+  match h with
+  | [] => ([], st)
+  | (m, s) :: h' =>
+    let '(os, st1) := objs_of st (lex_all m s) in
+    let '(os', st2) := lex_history st1 h' in (os ++ os', st2)
+  end.
+
+(* literal of the tokens of a constant type *)
+Definition const_table : list (Z * list N) :=
+  map (fun e => (fst e, [snd e])) single_char_tokens ++
+  map (fun e => (fst e, [fst (snd e); snd (snd e)])) two_char_tokens ++
+  map (fun e => (snd e, fst e)) keyword_tokens ++
+  [(token_EOF, []); (token_EOL, [])].
+
+Fixpoint keys_distinct (l : list Z) : bool :=
+  match l with
+  | [] => true
+  | k :: l' => negb (existsb (Z.eqb k) l') && keys_distinct l'
+  end.
+
+(* every constant token type has exactly one literal (side condition on the generated tables) *)
+Lemma const_table_functional : keys_distinct (map fst const_table) = true.
+Proof. vm_compute. reflexivity. Qed.
+
+Lemma keys_distinct_functional (l : list (Z * list N)) :
+  keys_distinct (map fst l) = true -> forall k a b, In (k, a) l -> In (k, b) l -> a = b.
+Proof.
+  induction l as [|[k0 a0] l IH]; cbn [map fst keys_distinct]; intros H k a b Ha Hb; [destruct Ha|].
+  apply andb_prop in H. destruct H as [H1 H2]. apply negb_true_iff in H1.
+  assert (Hno : forall x, In (k0, x) l -> False).
+  { intros x Hx. assert (E : existsb (Z.eqb k0) (map fst l) = true).
+    { apply existsb_exists. exists k0. split; [|apply Z.eqb_refl]. apply in_map_iff. exists (k0, x). auto. }
+    congruence. }
+  destruct Ha as [Ha|Ha], Hb as [Hb|Hb].
+  - congruence.
+  - inversion Ha; subst. exfalso. eapply Hno; eauto.
+  - inversion Hb; subst. exfalso. eapply Hno; eauto.
+  - eapply IH; eauto.
+Qed.
+
+Lemma value_types_not_op ty : is_op_type ty = true -> is_value_type ty = false.
+Proof.
+  intros H. destruct (is_op_type_not_special ty H) as (A1 & A2 & A3 & A4 & A5 & A6 & A7 & A8 & A9 & _).
+  unfold is_value_type. cbn [existsb].
+  repeat match goal with Hn : ty <> ?c |- _ => apply Z.eqb_neq in Hn; try rewrite Hn; clear Hn end.
+  reflexivity.
+Qed.
+
+(* a token of a constant type carries the literal of the table *)
+Lemma scan_case_const lm r ty lit k :
+  scan_case lm r ty lit k -> is_value_type ty = false -> In (ty, lit) const_table.
+Proof.
+  intros H V. unfold const_table. destruct H; try (vm_compute in V; discriminate V).
+  - apply in_or_app. left. apply in_map_iff. exists (ty, ch). auto.
+  - apply in_or_app. right. apply in_or_app. left. apply in_map_iff. exists (ty, (c1, c2)). auto.
+  - apply in_or_app. right. apply in_or_app. right. apply in_or_app. right. right. now left.
+  - apply in_or_app. right. apply in_or_app. right. apply in_or_app. right.
+    destruct lm; [right|]; now left.
+  - destruct H as [H|H]; subst ty; vm_compute in V; discriminate V.
+  - apply in_or_app. right. apply in_or_app. right. apply in_or_app. left.
+    unfold lookup_ident, lookup_keyword in *.
+    destruct (lookup_keyword_in keyword_tokens (firstn k r)) as [t|] eqn:E; [|vm_compute in V; discriminate V].
+    apply lookup_keyword_in_spec in E. destruct E as [kw [Hin Hk]]. apply bytes_eqb_eq in Hk. subst kw.
+    apply in_map_iff. exists (firstn k r, t). auto.
+Qed.
+
+Lemma lex_all_const_lit m s t :
+  In t (lex_all m s) -> is_value_type (lt_type t) = false -> In (lt_type t, lt_lit t) const_table.
+Proof. intros Hin V. destruct (lex_all_tok_at m s t Hin) as [_ C]. exact (scan_case_const _ _ _ _ _ C V). Qed.
+
+(* what is needed of a token for the object theorem *)
+Definition tok_lit_ok (t : ltok) : Prop :=
+  is_value_type (lt_type t) = false -> In (lt_type t, lt_lit t) const_table.
+
+Definition obj_inv (st : istate) (p : ltok * tobj) : Prop :=
+  match snd p with
+  | OConst ty => is_value_type (lt_type (fst p)) = false /\ ty = lt_type (fst p)
+  | OValue id => is_value_type (lt_type (fst p)) = true /\
+                 i_lookup (i_tbl st) (lt_type (fst p), lt_lit (fst p)) = Some id
+  end.
+
+Lemma obj_inv_mono st st' p :
+  (forall k id, i_lookup (i_tbl st) k = Some id -> i_lookup (i_tbl st') k = Some id) ->
+  obj_inv st p -> obj_inv st' p.
+Proof. intros M. unfold obj_inv. destruct (snd p); intros [A B]; split; auto. Qed.
+
+Lemma objs_of_spec toks : forall st,
+  i_wf st ->
+  let '(os, st') := objs_of st toks in
+  i_wf st' /\
+  (forall k id, i_lookup (i_tbl st) k = Some id -> i_lookup (i_tbl st') k = Some id) /\
+  Forall (obj_inv st') os /\ map fst os = toks.
+Proof.
+  induction toks as [|t toks IH]; intros st W; cbn [objs_of].
+  - split; [exact W|]. split; [auto|]. split; [constructor|reflexivity].
+  - unfold obj_of. destruct (is_value_type (lt_type t)) eqn:V.
+    + pose proof (intern_spec st (lt_type t, lt_lit t) W) as I.
+      destruct (intern st (lt_type t, lt_lit t)) as [id st1]. destruct I as [W1 [L1 M1]].
+      specialize (IH st1 W1). destruct (objs_of st1 toks) as [os st2]. destruct IH as [W2 [M2 [F2 E2]]].
+      split; [exact W2|]. split; [auto|]. split; [|cbn [map fst]; now rewrite E2].
+      constructor; [|exact F2]. unfold obj_inv. cbn [fst snd]. auto.
+    + specialize (IH st W). destruct (objs_of st toks) as [os st2]. destruct IH as [W2 [M2 [F2 E2]]].
+      split; [exact W2|]. split; [auto|]. split; [|cbn [map fst]; now rewrite E2].
+      constructor; [|exact F2]. unfold obj_inv. cbn [fst snd]. auto.
+Qed.
+
+Lemma lex_history_spec h : forall st,
+  i_wf st ->
+  let '(os, st') := lex_history st h in
+  i_wf st' /\
+  (forall k id, i_lookup (i_tbl st) k = Some id -> i_lookup (i_tbl st') k = Some id) /\
+  Forall (obj_inv st') os /\ Forall (fun p => tok_lit_ok (fst p)) os.
+Proof.
+  induction h as [|[m s] h IH]; intros st W; cbn [lex_history].
+  - split; [exact W|]. split; [auto|]. split; constructor.
+  - pose proof (objs_of_spec (lex_all m s) st W) as O. destruct (objs_of st (lex_all m s)) as [os st1].
+    destruct O as [W1 [M1 [F1 E1]]]. specialize (IH st1 W1). destruct (lex_history st1 h) as [os' st2].
+    destruct IH as [W2 [M2 [F2 G2]]]. split; [exact W2|]. split; [auto|]. split.
+    + apply Forall_app. split; [|exact F2]. eapply Forall_impl; [|exact F1]. intros p. now apply obj_inv_mono.
+    + apply Forall_app. split; [|exact G2]. rewrite Forall_forall. intros p Hp. unfold tok_lit_ok. intros V.
+      apply (lex_all_const_lit m s); [|exact V]. rewrite <- E1. now apply in_map.
+Qed.
+
+(* After token.Init, whatever inputs a process lexes, in whatever modes and order: two tokens it received are the
+   same object iff they have the same type and literal. *)
+Lemma lex_history_objects h :
+  let os := fst (lex_history i_init h) in
+  forall a b ta oa tb ob,
+    nth_error os a = Some (ta, oa) -> nth_error os b = Some (tb, ob) ->
+    (oa = ob <-> (lt_type ta = lt_type tb /\ lt_lit ta = lt_lit tb)).
+Proof.
+  pose proof (lex_history_spec h i_init i_init_wf) as H. destruct (lex_history i_init h) as [os st].
+  destruct H as [[W1 W2] [_ [F G]]]. cbn [fst]. intros a b ta oa tb ob Ha Hb.
+  rewrite Forall_forall in F, G.
+  pose proof (F _ (nth_error_In _ _ Ha)) as Fa. pose proof (F _ (nth_error_In _ _ Hb)) as Fb.
+  pose proof (G _ (nth_error_In _ _ Ha)) as Ga. pose proof (G _ (nth_error_In _ _ Hb)) as Gb.
+  unfold obj_inv, tok_lit_ok in *. cbn [fst snd] in *.
+  destruct oa as [tya|ida], ob as [tyb|idb].
+  - destruct Fa as [Va ->], Fb as [Vb ->]. split.
+    + intros E. injection E as E'. split; [exact E'|].
+      specialize (Ga Va). specialize (Gb Vb). rewrite E' in Ga.
+      exact (keys_distinct_functional _ const_table_functional _ _ _ Ga Gb).
+    + intros [E _]. now rewrite E.
+  - destruct Fa as [Va _], Fb as [Vb _]. split; [discriminate|]. intros [E _]. rewrite E in Va. congruence.
+  - destruct Fa as [Va _], Fb as [Vb _]. split; [discriminate|]. intros [E _]. rewrite E in Va. congruence.
+  - destruct Fa as [_ La], Fb as [_ Lb]. split.
+    + intros E. injection E as E'. subst idb. pose proof (W2 _ _ _ La Lb) as K. injection K as K1 K2. auto.
+    + intros [E1 E2]. rewrite E1, E2 in La. congruence.
+Qed.
